@@ -26,6 +26,10 @@ def find_function(relpath, qualname):
     found = None
     for child in ast.walk(node) if not isinstance(node, (ast.Module, ast.ClassDef)) else node.body:
       if isinstance(child, (ast.FunctionDef, ast.ClassDef, ast.AsyncFunctionDef)) and child.name == p and child is not node:
+        # python semantics: the last definition of a name wins (typing.overload stubs come first)
+        if isinstance(node, (ast.Module, ast.ClassDef)):
+          found = child
+          continue
         found = child
         break
     if found is None and isinstance(node, (ast.Module, ast.ClassDef)):
